@@ -86,6 +86,10 @@ def path(ctx, cfg):
     spec, N = r.spec, r.N
     desc = f"{cfg['alg']}/{cfg['motif']} jds={r.d}"
     ctx.require(r.cls_ok, "factory-dispatch", f"{desc}: factory returned {type(r.gen).__name__}")
+    wrong = gc.provenance_ok(r)
+    if wrong is not None:
+        ctx.require(not wrong, "call-arity", lambda: f"{desc}: stubs of one topology were handed to another topology's build callback: {wrong}",
+                    sig="callback-of-another-topology")
     # (a) number of build calls per motif type, (b) arity of every call
     for j in range(len(spec["builds"])):
         n = sum(1 for c in r.calls if c["j"] == j)
